@@ -103,6 +103,9 @@ func c10Check(t failer, test string, in []byte) (bool, bool, bool) {
 			var buf bytes.Buffer
 			e.ExpressionDump(&buf, " ", 0)
 			ev.VerifAST().ExpressionDump(&buf, "\t", 1)
+			e.ExpressionDump(&buf, "   ", 0)
+			e.ExpressionDump(&buf, "\t\t", 2)
+			e.ExpressionDump(&buf, "", 3)
 		})
 		guard("Evaluate", func() {
 			for _, d := range c10Battery {
@@ -219,9 +222,17 @@ func TestC10_Random(t *testing.T) {
 		case 1:
 			in = []byte(rapid.StringOfN(rapid.RuneFrom(c15Alphabet), 0, 30, -1).Draw(t, "runes"))
 		default:
-			e := gen.FreeExprKW(t, rapid.IntRange(1, 4).Draw(t, "depth"))
+			var e bx.Expr
+			if rapid.IntRange(0, 9).Draw(t, "long") == 0 {
+				e = gen.FreeLong(t)
+			} else {
+				e = gen.FreeExprKW(t, rapid.IntRange(1, 4).Draw(t, "depth"))
+			}
 			rend := bx.NewRenderer(chooser(t))
 			rend.MaxParen = 2
+			if bx.Depth(e) > 12 {
+				rend.MaxParen = 0 // every parenthesis level multiplies the parse cost of what it encloses by 4
+			}
 			text, _ := rend.Render(e)
 			b := []byte(text)
 			nm := rapid.IntRange(0, 3).Draw(t, "mutations")
